@@ -56,8 +56,10 @@ def _leaves(node, out):
     return probs
 
 
-def check_tree(tree, text, start_fqn, consume):
-    """Structural derivation check against the grammar object + leaf discipline."""
+def check_tree(tree, text, start_fqn, consume, allow_injected=False):
+    """Structural derivation check against the grammar object + leaf discipline.
+    allow_injected: zero-length leaves may carry any value (tokens injected by a
+    custom strategy occupy no input)."""
     leaves = []
     probs = _leaves(tree, leaves)
     root = tree.production.symbol.fqn if tree.is_nonterm() else tree.symbol.fqn
@@ -68,7 +70,7 @@ def check_tree(tree, text, start_fqn, consume):
         if not (isinstance(s, int) and isinstance(e, int) and 0 <= s <= e <= len(text)):
             probs.append(f"leaf span out of bounds [{s},{e}]")
             continue
-        if text[s:e] != v:
+        if text[s:e] != v and not (allow_injected and s == e):
             probs.append(f"leaf value {v!r} != input[{s}:{e}] {text[s:e]!r}")
         if s < pos:
             probs.append(f"leaf [{s},{e}] overlaps/precedes previous leaf ending at {pos}")
@@ -112,7 +114,7 @@ def check_conservation(text, leaves, spans, ws, layout="ws"):
             cover[i] += 1
     probs = []
     lay = [False] * len(text)
-    if layout == "comments":
+    if layout in ("comments", "nested"):
         i = 0
         while i < len(text):
             if cover[i]:
@@ -121,7 +123,9 @@ def check_conservation(text, leaves, spans, ws, layout="ws"):
             j = i
             while j < len(text) and not cover[j]:
                 j += 1
-            if LAYOUT_RE.fullmatch(text, i, j):
+            ok = (LAYOUT_RE.fullmatch(text, i, j) if layout == "comments"
+                  else pool.is_nested_layout(text[i:j]))
+            if ok:
                 for k in range(i, j):
                     lay[k] = True
             i = j
@@ -357,12 +361,14 @@ def child_parses(spec, jobs):
                     s, _e = loc.start_position, loc.end_position
                     if not (isinstance(s, int) and 0 <= s <= len(text)):
                         rep["probs"].append(f"raised SyntaxError start {s} out of bounds")
-                    if hasattr(p, "errors"):
-                        rep["probs"].append("parser.errors still present after raising")
                     if job["recovery"] not in ("default", "off") and last_err and (
                             raised is not last_err[0]) and (
                             raised.location.start_position
-                            != last_err[0].location.start_position):
+                            < last_err[0].location.start_position):
+                        # an EARLIER error than the last one a strategy was shown.  (A
+                        # later one is possible: the LAYOUT sub-parser raises its own
+                        # SyntaxError, e.g. for an unclosed nested comment, and that
+                        # error never passes through recovery.)
                         # compared by value (position), so that an implementation
                         # that copies error objects does not alarm
                         rep["probs"].append(
@@ -409,7 +415,13 @@ def child_parses(spec, jobs):
                 if (cfg["kind"] == "lr" and job["recovery"] != "default" and not sp
                         and cfg["opts"].get("consume_input", True)):
                     # conservation for custom strategies too (injected leaves are empty)
-                    tp, leaves = check_tree(res, text, start_fqn, True)
+                    tp, leaves = check_tree(res, text, start_fqn, True, allow_injected=True)
+                    if tp:
+                        # leaves must still be input substrings in input order (an
+                        # injected leaf is empty): e.g. an injected token that
+                        # "occupies" real input
+                        rep.setdefault("class", "tree")
+                        rep["probs"] += tp[:4]
                     if not tp:
                         cp = check_conservation(text, leaves, spans, _ws_of(cfg),
                                                 spec.get("layout"))
@@ -530,7 +542,7 @@ def gen_run(rng, tier):
         toks = m.sentence(rng, depth=rng.randint(1, 5))
         if len(toks) > mt:
             toks = toks[: rng.randint(1, mt)]
-        fancy = 0.5 if sc["layout"] == "comments" else 0.2
+        fancy = 0.5 if sc["layout"] != "ws" else 0.2
         clean = pool.layout_tokens(rng, toks, sc["layout"], fancy=fancy)
         r = rng.random()
         fired = []
@@ -546,6 +558,10 @@ def gen_run(rng, tier):
             text = pool.layout_tokens(rng, dt, sc["layout"], fancy=fancy)
             if "trunc_char" in fired and text:
                 text = text[: rng.randrange(len(text))]
+        if sc["layout"] == "nested" and rng.random() < 0.3:
+            t2 = pool.damage_layout(rng, text)
+            if t2 is not None:
+                text, fired = t2, fired + ["layout"]
         cfg = rng.choice(cfgs)
         if "ws" in cfg["opts"]:
             # ws=None (significant whitespace / non-textual input) or a reduced ws
